@@ -161,6 +161,84 @@ pub fn execute(sc: &BlockScenario, probes: &mut Counters, states: Option<&mut Ha
 
 const K_POOL_QUICK: [u32; 30] = [1, 2, 3, 5, 9, 10, 11, 12, 13, 18, 19, 20, 26, 27, 31, 32, 33, 40, 46, 55, 56, 60, 69, 75, 84, 90, 101, 102, 110, 120];
 
+/// "Redundant flood": all but one or two source symbols arrive, then dozens of repair symbols that
+/// the oracle knows to be linearly dependent on what is already held (they do not involve the
+/// missing symbols), and only then symbols that complete the rank. The decoder sees >= K symbols of
+/// deficient rank for a long stretch, with far more surplus rows than inactivated columns.
+fn generate_flood(r: &mut Rng, k: u32, t: u16, threshold: Option<u32>) -> Option<BlockScenario> {
+    if k < 2 {
+        return None;
+    }
+    let (pr, mut basis) = base_cached(k);
+    let nmiss = r.urange(1, 2.min(k as usize - 1));
+    let mut missing: Vec<u32> = vec![];
+    while missing.len() < nmiss {
+        let e = r.below(k as u64) as u32;
+        if !missing.contains(&e) {
+            missing.push(e);
+        }
+    }
+    let sources: Vec<u32> = (0..k).filter(|e| !missing.contains(e)).collect();
+    for e in &sources {
+        basis.insert(lt_row(&pr, isi_of(&pr, *e)));
+    }
+    let room = (1u32 << 24) - k;
+    let want = r.urange(20, 90);
+    let mut redundant: Vec<u32> = vec![];
+    let mut tries = 0;
+    while redundant.len() < want && tries < 2000 {
+        tries += 1;
+        let e = k + r.below(room as u64) as u32;
+        if redundant.contains(&e) {
+            continue;
+        }
+        let mut b2 = basis.clone();
+        if !b2.insert(lt_row(&pr, isi_of(&pr, e))) {
+            redundant.push(e);
+        }
+    }
+    if redundant.len() < 10 {
+        return None;
+    }
+    // informative symbols until the oracle's rank is full
+    let mut informative: Vec<u32> = vec![];
+    let mut tries = 0;
+    while !basis.full() && tries < 500 {
+        tries += 1;
+        let e = k + r.below(room as u64) as u32;
+        if redundant.contains(&e) || informative.contains(&e) {
+            continue;
+        }
+        if basis.insert(lt_row(&pr, isi_of(&pr, e))) {
+            informative.push(e);
+        }
+    }
+    let mut sources = sources;
+    r.shuffle(&mut sources);
+    let mut steps: Vec<Vec<u32>> = vec![];
+    if r.chance(1, 2) {
+        steps.push(sources);
+    } else {
+        for e in sources {
+            steps.push(vec![e]);
+        }
+    }
+    // the flood: singles, or a few batches
+    if r.chance(2, 3) {
+        for e in &redundant {
+            steps.push(vec![*e]);
+        }
+    } else {
+        for c in redundant.chunks(r.urange(2, 30)) {
+            steps.push(c.to_vec());
+        }
+    }
+    for e in informative {
+        steps.push(vec![e]);
+    }
+    Some(BlockScenario { k, t, data_seed: 0x0C02_0000 + ((k as u64) << 8) + t as u64, threshold, steps })
+}
+
 pub fn generate(seed: u64, quick: bool) -> BlockScenario {
     let mut r = Rng::new(seed);
     let k: u32 = if quick {
@@ -184,6 +262,11 @@ pub fn generate(seed: u64, quick: bool) -> BlockScenario {
         2 => Some(0),
         _ => Some(100_000),
     };
+    if k <= 130 && r.chance(1, 12) {
+        if let Some(sc) = generate_flood(&mut r, k, t, threshold) {
+            return sc;
+        }
+    }
     // which symbols arrive: a share of the source symbols, topped up with repair symbols
     let src_share = *r.pick(&[0u32, 0, 60, 90, 90, 100]);
     let mut pool: Vec<u32> = (0..k).filter(|_| r.below(100) < src_share as u64).collect();
